@@ -164,3 +164,87 @@ def run(ctx):
     seeks = [c for c in symcalls(prog, r, Srd) if c[1].endswith("Seek::seek")]
     adds = [c[2][1] for c in seeks]
     ctx.check(len(seeks) == 3 and sum(1 for a in adds if "Add!" in a) == 2, R, "read() seeks to section_offset (+ offset)", "", "read() seeks: %s" % [a[:80] for a in adds], r.loc(), fn=r.name)
+
+
+SUMMARY_IDS = {"title": 2, "subject": 3, "author": 4, "comments": 6, "uuid": 9, "creation_time": 12, "word_count": 15, "creating_application": 18}
+SUMMARY_TYPES = {"title": "LpStr", "subject": "LpStr", "author": "LpStr", "comments": "LpStr", "uuid": "LpStr", "creation_time": "FileTime", "word_count": "I4",
+                 "creating_application": "LpStr"}
+TEMPLATE = 7
+SI = "msi::internal::summary::SummaryInfo::"
+
+
+def summary_ids(ctx, rule="PROP-ID"):
+    prog = ctx.prog
+    ctx.rule(rule, "for each summary property the getter reads, the setter writes and the clearer removes the same property id, equal to the format's (title 2, subject 3, "
+                   "author 4, comments 6, template 7, revision/uuid 9, creation time 12, word count 15, creating application 18), with the same value type on both sides")
+    for name, pid in sorted(SUMMARY_IDS.items()):
+        got = {}
+        for role, fname in (("get", name), ("set", "set_" + name), ("clear", "clear_" + name)):
+            f = prog.fn(SI + fname)
+            S = Sym(prog, f)
+            for b, n, args, t in symcalls(prog, f, S):
+                m = re.search(r"PropertySet::(get|set|remove)$", n)
+                if m and re.fullmatch(r"c:\d+", args[1]):
+                    got[role] = (m.group(1), int(args[1][2:]), args[2] if len(args) > 2 else "")
+        ok = got.get("get", ("", -1))[:2] == ("get", pid) and got.get("set", ("", -1))[:2] == ("set", pid) and got.get("clear", ("", -1))[:2] == ("remove", pid)
+        ctx.check(ok, rule, name, "id %d" % pid, "summary property %s: getter/setter/clearer use %s, the format's id is %d" % (name, {k: v[:2] for k, v in got.items()}, pid),
+                  key="%s|%s" % (rule, name))
+        if ok:
+            ty = SUMMARY_TYPES[name]
+            wt = "PropertyValue::%s{" % ty in got["set"][2]
+            g = prog.fn(SI + name)
+            rt = any(s["rhs"]["rv"] == "discr" or True for bl in g.blocks for s in bl["stmts"])
+            Sg = Sym(prog, g)
+            vs = {v["idx"]: v["name"] for v in prog.adts["msi::internal::propset::PropertyValue"]["variants"]}
+            arms = [vs.get(v) for bl in g.blocks if not bl["cleanup"] and bl["term"]["t"] == "switch" and "@Some.0)" in Sg.val(bl["term"]["discr"]) for v, tg in bl["term"]["cases"]]
+            ctx.check(wt and arms == [ty], rule, name + " value type", ty, "summary property %s is written as %s and read as %s, expected %s" % (name, got["set"][2][:50], arms, ty), key="%s|type|%s" % (rule, name))
+    R = "TEMPLATE-1"
+    ctx.rule(R, "architecture and languages share the template property (7): nobody removes property 7; set_arch and set_languages read the existing template and write a value "
+                "derived from both the new half and the old other half; clear_arch / clear_languages go through set_arch / set_languages")
+    from ..flow import derived_locals
+    for f in prog.fns.values():
+        if f.crate == "msi" and f.file == "src/internal/summary.rs":
+            S = Sym(prog, f)
+            for b, n, args, t in symcalls(prog, f, S):
+                if n.endswith("PropertySet::remove") and args[1] == "c:%d" % TEMPLATE:
+                    ctx.violation(R, "%s removes the template property" % short(f.name), "%s removes property 7, which also holds the %s" % (
+                        short(f.name), "languages" if "arch" in f.name else "architecture"), f.loc(t["sp"]), fn=f.name, key="%s|remove|%s" % (R, short(f.name)))
+    for fname, other in (("set_arch", "languages"), ("set_languages", "architecture")):
+        f = prog.fn(SI + fname)
+        S = Sym(prog, f)
+        cs = symcalls(prog, f, S)
+        gets = [c for c in cs if c[1].endswith("PropertySet::get") and c[2][1] == "c:%d" % TEMPLATE]
+        sets = [c for c in cs if c[1].endswith("PropertySet::set") and c[2][1] == "c:%d" % TEMPLATE]
+        ok = len(gets) == 1 and len(sets) == 1
+        if ok:
+            D = derived_locals(f, {gets[0][3]["dest"]["l"]}, through_calls=lambda t: True)
+            a = sets[0][3]["args"][2]
+            ok = a.get("pl") and a["pl"]["l"] in D
+            # and from the new half (a parameter)
+            P = derived_locals(f, {2}, through_calls=lambda t: True)
+            ok = ok and a["pl"]["l"] in P
+        ctx.check(ok, R, "%s keeps the %s" % (fname, other), "", "%s does not compose the new template from its argument and the existing template's %s part" % (fname, other), f.loc(), fn=f.name,
+                  key="%s|%s" % (R, fname))
+    for fname, via in (("clear_arch", "set_arch"), ("clear_languages", "set_languages")):
+        f = prog.fn(SI + fname)
+        cs = [cname(prog, t) for b, t in f.calls()]
+        ctx.check(any(c.startswith(SI + via) for c in cs), R, "%s goes through %s" % (fname, via), "", "%s does not call %s (calls: %s)" % (fname, via, [short(c) for c in cs]), f.loc(), fn=f.name,
+                  key="%s|%s" % (R, fname))
+    # arch()/languages() split at the first ';'
+    for fname in ("arch", "languages", "set_arch", "set_languages"):
+        f = prog.fn(SI + fname)
+        S = Sym(prog, f)
+        sp = [args for b, n, args, t in symcalls(prog, f, S) if re.search(r"<impl str>::(split_once|splitn)$", n)]
+        ctx.check(len(sp) == 1 and "c:59" in " ".join(sp[0]), R, "%s splits the template at ';'" % fname, "", "%s does not split the template at the first ';': %s" % (fname, sp), f.loc(), fn=f.name)
+    R = "CP-THREAD"
+    ctx.rule(R, "PropertySet::write encodes every value with the set's own code page and read decodes every value with the code page parsed from property 1 (the code page "
+                "property itself with the default)")
+    w = prog.fn(PS + "PropertySet::write")
+    S = Sym(prog, w)
+    pw = [args for b, n, args, t in symcalls(prog, w, S) if n.endswith("PropertyValue::write")]
+    ctx.check(len(pw) == 1 and pw[0][2] == "*p1.codepage", R, "write uses self.codepage", str([a[2] for a in pw]), "PropertySet::write encodes values with %s" % [a[2] for a in pw], w.loc(), fn=w.name)
+    r = prog.fn(PS + "PropertySet::read")
+    S = Sym(prog, r)
+    pr = [args for b, n, args, t in symcalls(prog, r, S) if n.endswith("PropertyValue::read")]
+    ok = len(pr) == 2 and "Default>::default" in pr[0][1] and "Default>::default" not in pr[1][1]
+    ctx.check(ok, R, "read uses the parsed code page", "", "PropertySet::read decodes values with %s" % [a[1][:60] for a in pr], r.loc(), fn=r.name)
